@@ -1,7 +1,7 @@
 (* C03 - flattening and winding variables are exact inverses.
    Statements only; proofs are in Proofs/FlattenP.v. *)
 From Coq Require Import ZArith List.
-From EV Require Import Base.Index Base.LArr Model.Flatten Proofs.FlattenP.
+From EV Require Import Base.Index Base.LArr Model.Flatten Proofs.FlattenP Proofs.FlattenP2.
 Import ListNotations.
 Open Scope Z_scope.
 
@@ -15,6 +15,17 @@ Theorem C03_wind_ravel : forall (A : Type) (a : larr A) G lin r, wf a -> ravel_d
     forall env, env_in a env -> get w env = get a env.
 Proof. exact @wind_ravel. Qed.
 Print Assumptions C03_wind_ravel.
+
+(* the converse: wind flat data onto a grid (the linear dimension anywhere among the dimensions), flatten it again
+   under the same linear name: the original values under the original labels; the linear dimension ends up last *)
+Theorem C03_ravel_wind : forall (A : Type) (y : larr A) G gs lin w r,
+  NoDup (dims y) -> length (sizes y) = length (dims y) -> NoDup G -> G <> [] ->
+  (forall d, In d G -> ~ In d (dims y)) -> pos_shape gs ->
+  wind_dim G gs lin y = Some w -> ravel_dims G (Some lin) w = Some r ->
+  dims r = filter (fun d => negb (Z.eqb d lin)) (dims y) ++ [lin] /\
+  forall env, env_in y env -> get r env = get y env.
+Proof. exact @ravel_wind. Qed.
+Print Assumptions C03_ravel_wind.
 
 (* values are only moved: the flattened value at (labels, n) is the original value at (labels, unravel n) *)
 Theorem C03_ravel_get : forall (A : Type) (a : larr A) G lin r env', ravel_dims G lin a = Some r ->
